@@ -12,11 +12,13 @@ CONSTANTS SHAPES,   \* set of shape ids (see ShapeOf)
           NSPEC,    \* number of distinct spectra available
           OPS
 
-ShapeOf(k) == CASE k = 1 -> <<2>> [] k = 2 -> <<2, 2>> [] k = 3 -> <<3, 1, 2>> [] k = 4 -> <<1, 2, 2>> [] k = 5 -> <<1>> [] k = 6 -> <<4>>
+ShapeOf(k) == CASE k = 1 -> <<2>> [] k = 2 -> <<2, 2>> [] k = 3 -> <<3, 1, 2>> [] k = 4 -> <<1, 2, 2>> [] k = 5 -> <<1>> [] k = 6 -> <<4>> [] k = 7 -> <<2, 1, 2>> [] k = 8 -> <<2, 2>>
 Size(sh) == IF Len(sh) = 1 THEN sh[1] ELSE IF Len(sh) = 2 THEN sh[1] * sh[2] ELSE sh[1] * sh[2] * sh[3]
 \* dimension names per shape, in stored order (includes layouts with the spectral dims first and a `part` dimension)
 DimsOf(k) == CASE k = 1 -> <<"time">> [] k = 2 -> <<"lat", "lon">> [] k = 3 -> <<"time", "lat", "lon">>
                [] k = 4 -> <<"part", "time", "site">> [] k = 5 -> <<"site">> [] k = 6 -> <<"site">>
+               \* several partitions per position (what every partition method returns), `part` stored first or last of the leading dimensions
+               [] k = 7 -> <<"part", "time", "site">> [] k = 8 -> <<"time", "part">>
 
 VARIABLES shape, ds, orig, edited, res, stage
 vars == <<shape, ds, orig, edited, res, stage>>
